@@ -427,11 +427,14 @@ theorem ensureGroup_cases (s : State) (g : String) (nlx : Option String) :
   cases e : findGroup s.groups g with
   | some G => exact Or.inl rfl
   | none =>
-    refine Or.inr ⟨?_, rfl⟩
-    unfold findGroup at e
-    split at e
-    · rename_i h; exact Or.inl h
-    · exact Or.inr e
+    simp only
+    split
+    · exact Or.inl rfl
+    · refine Or.inr ⟨?_, rfl⟩
+      unfold findGroup at e
+      split at e
+      · rename_i h; exact Or.inl h
+      · exact Or.inr e
 
 theorem look_snoc_new (gs : List Group) (g : String) (nlx : Option String) (h : String) :
     look (gs ++ [{ id := g, members := [], includes := [], nlx := nlx }]) h =
@@ -483,11 +486,14 @@ theorem isSome_ensureGroup_self (s : State) (g : String) (nlx : Option String) (
   | some G => simp [e]
   | none =>
     simp only
+    have hnot : ¬ ({ id := g, members := [], includes := [], nlx := nlx } : Group) ∈ s.groups :=
+      fun hm => look_none_iff.mp e _ hm rfl
+    simp only [hnot, ↓reduceIte]
     rw [look_snoc_new, e]
     simp
 
 theorem segs_ensureGroup (s : State) (g : String) (nlx : Option String) : (ensureGroup s g nlx).segs = s.segs := by
-  unfold ensureGroup; split <;> rfl
+  rcases ensureGroup_cases s g nlx with e | ⟨_, e⟩ <;> rw [e]
 
 theorem str_ensureGroup {s : State} (h : Str s.groups) (g : String) (nlx : Option String) :
     Str (ensureGroup s g nlx).groups := by
@@ -1045,7 +1051,7 @@ theorem convStep_user {s : State} (h : Str s.groups) (gid : String) (id : Nat) (
     exact segs_ensureGroup s gid none
   have hmemb3 : s3.memb = s.memb ∧ s3.intra = s.intra := by
     have e0 : ∀ (x : State) g n, (ensureGroup x g n).memb = x.memb ∧ (ensureGroup x g n).intra = x.intra := by
-      intro x g n; unfold ensureGroup; split <;> exact ⟨rfl, rfl⟩
+      intro x g n; rcases ensureGroup_cases x g n with e | ⟨_, e⟩ <;> rw [e] <;> exact ⟨rfl, rfl⟩
     have a1 := e0 s gid none
     have a2 := e0 sb "all" (defaultNlx "all")
     have a3 := e0 sc t.group (defaultNlx t.group)
@@ -1120,7 +1126,7 @@ theorem convStep_none {s : State} (h : Str s.groups) (id : Nat) (t : SegType) (r
     rw [segs_ensureGroup, segs_ensureGroup]
   have hmemb3 : s3.memb = s.memb ∧ s3.intra = s.intra := by
     have e0 : ∀ (x : State) g n, (ensureGroup x g n).memb = x.memb ∧ (ensureGroup x g n).intra = x.intra := by
-      intro x g n; unfold ensureGroup; split <;> exact ⟨rfl, rfl⟩
+      intro x g n; rcases ensureGroup_cases x g n with e | ⟨_, e⟩ <;> rw [e] <;> exact ⟨rfl, rfl⟩
     have a2 := e0 s "all" (defaultNlx "all")
     have a3 := e0 sc t.group (defaultNlx t.group)
     constructor
